@@ -171,9 +171,15 @@ func (r *metricReader) readSeriesData(ctx *flow.DataLoadContext, seriesIdx uint1
 	decoder := ctx.Decoder
 	fieldCount := r.fields.Len()
 	if fieldCount == 1 {
-		decoder.ResetWithTimeRange(seriesEntryBlock, r.timeRange.Start, r.timeRange.End)
-		// metric has one field, just read the data
-		ctx.DownSampling(r.timeRange, seriesIdx, 0, decoder)
+		// metric has one field, just read the data.
+		// NOTE: it is the data of the query field which was found in this file(not always the first one of query).
+		for queryIdx, readIdx := range r.readFieldIndexes {
+			if readIdx == fieldNotFound {
+				continue
+			}
+			decoder.ResetWithTimeRange(seriesEntryBlock, r.timeRange.Start, r.timeRange.End)
+			ctx.DownSampling(r.timeRange, seriesIdx, queryIdx, decoder)
+		}
 		return
 	}
 
